@@ -16,7 +16,8 @@ fn mk(bs: u32, len: usize, atom: u8, ch: u8, bps: u8) -> Case {
         input: Input {
             ch,
             bps,
-            rate: 44100,
+            // header rate codes with and without extra bytes (they change the frame sizes)
+            rate: [44100u32, 12340, 65540, 95999, 1000][len % 5],
             bs,
             full,
             tail,
